@@ -3,11 +3,17 @@ sheet and its reference desugaring (loops unrolled into blocks with lexically sc
 variables, false include_if removed), BOTH compiled by the implementation and compared by
 the Coq-verified bisimulation checker (equal traces for all input sequences); the
 desugared sheet's reference meaning (RowSem with blocks: an edge from a block leaves every
-loose exit, never a hard exit) is also compared with the sugared sheet's compiled flow."""
+loose exit, never a hard exit) is also compared with the sugared sheet's compiled flow.
+insert_as_block ("an inserted template replaced by a block containing that template's rows instantiated with its own data
+row and arguments"): harness/c03_insert.py — generated workbooks whose flows insert templates with arguments of every type
+the sheet language has (strings, native ints / bools / None / lists / dicts, blanks, sheet arguments), with typed data rows,
+inside loops and nested, against an independent reference desugaring; the binding of the arguments also as call histories
+on one ContentIndexParser and against the typed model Comp/InsertArgs.v."""
 import json
 import re
 
 import c03_blocks
+import c03_insert
 import flowutil
 import rowref
 import sheetgen
@@ -222,7 +228,12 @@ def run(ctx):
     ctx.stats["distribution"] = dist
     # the loop mechanics themselves: model (Comp/Blocks.v) <-> FlowParser, scope / unevaluated-content oracles
     nontrivial |= {("blocks", c) for c in c03_blocks.run(ctx, (6000 if thorough else 500) * ctx.scale)}
-    ctx.v.coverage["programs"] = ctx.stats.get("twins_equivalent", 0)
+    # insert_as_block: workbooks whose flows insert templates (typed arguments, data rows, inside loops, nested) against the
+    # reference desugaring "a block containing the template's rows instantiated with its own data row and arguments"
+    ins_nontrivial, ins_samples = c03_insert.run(ctx, (1500 if thorough else 45) * ctx.scale)
+    nontrivial |= {("insert", c) for c in ins_nontrivial}
+    samples += [dict(insert_as_block_workbook=s) for s in ins_samples[:1]]
+    ctx.v.coverage["programs"] = ctx.stats.get("twins_equivalent", 0) + ctx.stats.get("insert_as_block_twins", {}).get("twins_equivalent", 0)
     ctx.v.coverage["disagreements_checked"] = len(ctx.disagreements) + sum(ctx.v.viol_by_key.values())
     ctx.v.coverage["distinct_nontrivial"] = len(nontrivial)
     ctx.v.coverage["samples"] = samples
@@ -231,11 +242,22 @@ def run(ctx):
         "variables, nesting up to 3, bodies with branches/joins/go_to/hard exits, blocks, include_if false on rows and on "
         "loop/block heads (with undefined variables inside), context variables from a data row, loop variables that shadow them; "
         "each compiled together with its reference desugaring and judged by the Coq-verified checker. "
-        "non-trivial = distinct sugared row profile containing at least one loop")
+        "non-trivial = distinct sugared row profile containing at least one loop; "
+        "insert_as_block: generated workbooks (main flow with a typed data row; 1-4 block templates with 0-3 declared arguments - required / "
+        "default / sheet-typed -, with and without a typed data row, looping over their arguments, switching rows with them, handing them on to "
+        "templates they insert themselves; insert rows at top level, in loops over ranges / native lists of ints, bools, None, lists, dicts, strings / "
+        "`a;b` cells / data row ids, in blocks; template_arguments blank | text | {{ }} | native list | native scalar, blank and missing and surplus "
+        "positions) compiled next to their reference desugaring (block of the template's rows instantiated in {data row} + {declared name -> argument "
+        "| default for the empty string}); non-trivial = distinct profile (delivery form, classes of the argument values) with a falsy object or >= 2 insertions; "
+        "and histories of map_template_arguments_to_context calls with object arguments on ONE ContentIndexParser")
     ctx.v.assumptions += [
         "the reference desugaring (harness/sheetgen.py: desugar) is written from the property text and DESIGN Appendix B; it is compared, twin by twin, "
         "with the Gallina desugar of Comp/Desugar.v (about which C03_desugar_equiv is proved) on the projection row type / include_if / row_id / all other cells",
         "loop bodies use the variables only in the forms {{x}} / {{i}} (textual substitution = Jinja rendering of str values)",
+        "insert_as_block: the reference desugaring of harness/c03_insert.py (written from the property text; expressions are ASTs printed into the cells "
+        "and evaluated by the harness with Python's semantics: ==, truth value, str(), len, int filter as documented) is trusted; a whole-cell native "
+        "template whose value is a str that reads as a Python literal ('0', 'False': Jinja's NativeEnvironment evaluates it) is kept out of the generated "
+        "inputs (counted as reference_has_no_reading); a bare dict as the value of the template_arguments cell is not generated",
     ]
 
 
@@ -244,6 +266,8 @@ def replay(rep):
     r = rep["replay"]
     if r.get("fn") == "blocks":
         return c03_blocks.replay(r)
+    if r.get("fn") in ("insert", "binding"):
+        return c03_insert.replay(r)
     m = common.Model()
     outs = []
     for side in ("sugared", "desugared"):
